@@ -603,4 +603,44 @@ def parentEnvAt (copies : Bool) : CteEnv → List CteEnv → Nat → CteEnv
 def cteVisible (copies : Bool) (E : CteEnv) (sibs : List CteEnv) (i : Nat) (n : String) : Option Nat :=
   envGet n ((sibs[i]?).getD [] ++ parentEnvAt copies E sibs i)
 
+
+/-! ### a memo in front of `normalize_table_name` (string inputs)
+
+`Dialect.__eq__/__hash__` compare the dialect CLASS only, so a cache keyed `(text, dialect)` is keyed by
+(text, class): two dialect objects of one class with different `normalization_strategy` share its entries.
+`keyHasSettings = true` models a key that also contains the settings the result depends on. -/
+
+open SqlglotModel.Ident in
+structure MemoKey where
+  parts : List Ident
+  cls : String
+  strat : Option Strategy
+  deriving DecidableEq
+
+open SqlglotModel.Ident in
+def memoKey (keyHasSettings : Bool) (parts : List Ident) (cls : String) (s : Strategy) : MemoKey :=
+  ⟨parts, cls, if keyHasSettings then some s else none⟩
+
+abbrev NormMemo := List (MemoKey × String)
+
+def memoFind (k : MemoKey) : NormMemo → Option String
+  | [] => none
+  | (k', v) :: rest => if k' = k then some v else memoFind k rest
+
+open SqlglotModel.Ident in
+/-- one call of the memoised `normalize_table_name`: (answer, memo afterwards) -/
+def normKeyMemo (keyHasSettings : Bool) (f : CaseFns) (cls : String) (s : Strategy) (parts : List Ident)
+    (memo : NormMemo) : String × NormMemo :=
+  match memoFind (memoKey keyHasSettings parts cls s) memo with
+  | some v => (v, memo)
+  | none => (normKey f s parts, (memoKey keyHasSettings parts cls s, normKey f s parts) :: memo)
+
+open SqlglotModel.Ident in
+/-- a call history: (class, strategy, key parts) in order; the answers -/
+def runNormMemo (keyHasSettings : Bool) (f : CaseFns) : List (String × Strategy × List Ident) → NormMemo → List String
+  | [], _ => []
+  | (cls, s, parts) :: rest, memo =>
+    let r := normKeyMemo keyHasSettings f cls s parts memo
+    r.1 :: runNormMemo keyHasSettings f rest r.2
+
 end SqlglotModel.Lineage
